@@ -77,6 +77,17 @@ type c12Rec struct {
 	HTTPLk [][]int64 `json:"httplk"`
 }
 
+type c12Enc struct {
+	e *json.Encoder
+	w *bufio.Writer
+}
+
+func (x c12Enc) Encode(v interface{}) error {
+	err := x.e.Encode(v)
+	x.w.Flush()
+	return err
+}
+
 type c12Sess struct {
 	alias string
 	id    uint64
@@ -146,7 +157,9 @@ func c12History(c *rigChild, st rigStep, r *rigResult) {
 	defer f.Close()
 	w := bufio.NewWriterSize(f, 1<<20)
 	defer w.Flush()
-	enc := json.NewEncoder(w)
+	jenc := json.NewEncoder(w)
+	enc := c12Enc{jenc, w} // flushed after every record: the node may die in the middle of a history
+	pending := filepath.Join(c.dir, "irchist.pending")
 
 	rng := rand.New(rand.NewSource(p.Seed))
 	g := &vGen{r: rng, ts: time.Now().Unix(), length: p.Len, wild: p.Wild}
@@ -205,6 +218,10 @@ func c12History(c *rigChild, st rigStep, r *rigResult) {
 			break
 		}
 		rr := &rigResult{}
+		// what is about to be sent (if the node dies while applying it, this is the entry that killed it)
+		if pb, err := json.Marshal(map[string]interface{}{"step": step, "t": e.T, "sess": e.Sess, "data": e.Data, "addr": e.Addr}); err == nil {
+			os.WriteFile(pending, pb, 0644)
+		}
 		switch e.T {
 		case "create":
 			alias := fmt.Sprintf("s%d", before+1)
